@@ -225,11 +225,22 @@ func mergeBackendPolicyPortLevelSettings(user, backend []*networking.TrafficPoli
 	if len(backend) == 0 {
 		return user
 	}
+	// The user settings belong to a rule that can also live on its own (it is consolidated into several indexes
+	// and may be appended as a separate consolidated rule), so the gaps are filled on copies: neither the user
+	// rule nor the slice it owns is written to.
 	byPort := make(map[uint32]*networking.TrafficPolicy_PortTrafficPolicy, len(user))
+	merged := make([]*networking.TrafficPolicy_PortTrafficPolicy, 0, len(user)+len(backend))
 	for _, p := range user {
-		byPort[p.GetPort().GetNumber()] = p
+		cp := &networking.TrafficPolicy_PortTrafficPolicy{
+			Port:             p.Port,
+			LoadBalancer:     p.LoadBalancer,
+			ConnectionPool:   p.ConnectionPool,
+			OutlierDetection: p.OutlierDetection,
+			Tls:              p.Tls,
+		}
+		byPort[p.GetPort().GetNumber()] = cp
+		merged = append(merged, cp)
 	}
-	merged := user
 	for _, bp := range backend {
 		up, ok := byPort[bp.GetPort().GetNumber()]
 		if !ok {
